@@ -25,6 +25,7 @@ THEOREMS = [
     "BeyondVerif.C18.spk_propagator_either_direction",
     "BeyondVerif.C18.spk_attached_frames",
     "BeyondVerif.C18.spk_as_frame",
+    "BeyondVerif.C18.attach_potential_all",
     "BeyondVerif.C18.history_independent",
     "BeyondVerif.C18.inplace_is_copy",
     "BeyondVerif.C18.object_tracks_body",
@@ -38,7 +39,7 @@ THEOREMS = [
     "BeyondVerif.C18W.two_centres_consistent",
     "BeyondVerif.C18W.two_centres_wrong",
     "BeyondVerif.C18W.asframe_reframed_consistent",
-    "BeyondVerif.C18W.asframe_reframed_wrong",
+    "BeyondVerif.C18W.asframe_reframed_fixed",
 ]
 LEVEL_TEXT = ("Lean theorems about a model of create_frames / JplPropagator.propagate / Center.convert_to / Frame.transform (routing = the Node model of C20; "
               "jplephem segment values are a parameter): for EVERY kernel in which no body is the target of two centres, all segment values deriving from one "
@@ -48,7 +49,7 @@ LEVEL_TEXT = ("Lean theorems about a model of create_frames / JplPropagator.prop
               "256 ordered pairs are routed (kernel decide) and return exactly that vector; independence of the PCK constants. Every public route and histories: a JplPropagator "
               "built by hand for the reverse of a segment returns minus the direct one in all six components (spk_propagator_reverse) and, either way, position and velocity of the "
               "first body relative to the second (spk_propagator_either_direction); conversions between any frames, kernel bodies or frames made with Orbit.as_frame/orbit2frame, add "
-              "the difference of the centres' positions, the frame made from the orbit of a body as seen from either end of its segment (a non-Earth centre) being centred on that body "
+              "the difference of the centres' positions, the frame made from the orbit of a body as seen from either end of its segment (a non-Earth centre), whatever frame the orbit had been re-framed to, being centred on that body "
               "(spk_attached_frames, spk_as_frame); in EVERY world - whatever objects the caller holds, however he modified them in place, whatever admissible frames he attached - a "
               "request returns the vector the property states, a function of the kernel and the segment values at its date only (history_independent: the model, like the code, keeps no "
               "memory between requests); orb.frame = b leaves in orb what orb.copy(frame=b) returns, still the position of its body (inplace_is_copy, object_tracks_body). Sun/Moon: the two series are translated "
@@ -61,8 +62,9 @@ LEVEL_TEXT = ("Lean theorems about a model of create_frames / JplPropagator.prop
 LEVEL_NOTE = ("proof (partial): the first sentence of the property - agreement of the analytical series with the JPL DE ephemeris to 0.02 deg / 1e-4 (Sun), 0.7 deg / 0.5 % (Moon) - "
               "relates a formula to the contents of a binary data file; no theorem expresses it, it is exercised by the oracle only (DE403, 2000-2020 grid). "
               "R -> double gap covered only by tolerance-bounded correspondence (1e-12 SPK, 1e-10 series). Kernels where a body is the target of two centres are "
-              "excluded by hypothesis (open finding C18-two-centres, kernel-checked counter-witness); so are frames made with as_frame from an orbit that was re-framed before "
-              "(hypothesis AttOK, open finding C18-asframe-reframed, kernel-checked counter-witness). Totality (a vector IS returned) is proved for the DE403 kernel only; "
+              "excluded by hypothesis (open finding C18-two-centres, kernel-checked counter-witness). Frames made with as_frame from an orbit that was re-framed before are covered since "
+              "commit 261fb0a (Center.offset_frame; finding C18-asframe-reframed fixed, regression witness asframe_reframed_fixed): the only condition left on attached frames is the "
+              "naming convention AttPos (the new centre is given the position of the orbit's body), which attach_potential_all shows can always be met for fresh distinct names. Totality (a vector IS returned) is proved for the DE403 kernel only; "
               "for arbitrary trees it rests on C20's open forest-routing obligation.")
 TECHNIQUE = ("Lean 4 proof: induction over the routed path (telescoping of potentials) on top of C20's path_valid_chain; decide on the regenerated kernel; "
              "ring/linear_combination identities on series translated from the Python AST; Mathlib calculus for the difference-quotient bound; differential correspondence")
@@ -734,7 +736,7 @@ def spec_history(rec):
     """what every request of a history must return according to the property: the vectors obtained by chaining the
     file's segments directly, with no memory between the requests.  A frame made from the orbit of a body is centred on
     that body.  Returns per request (expected vector or None, magnitude of the terms summed, tainted) where tainted marks
-    the answers that involve a frame made from a re-framed orbit (open finding C18-asframe-reframed)."""
+    the answers that involve a frame made from a re-framed orbit (finding C18-asframe-reframed, fixed by 261fb0a: the family is kept)."""
     pairs = [tuple(p) for p in rec["pairs"]]
     raws = [{tuple(int(x) for x in key.split("-")): v for key, v in raw.items()} for raw in rec["raw"]]
     body = {}       # attached frame -> the body it is centred on
